@@ -76,9 +76,14 @@ type WalletSpec struct {
 
 // NewPopulation builds wallets and accounts in a fresh scratch store.
 func NewPopulation(t *testing.T, tag string, specs []WalletSpec) *Population {
+	return newPopulationOn(t, tag, specs, &lockedStore{inner: scratch.New()}, keystorev4.New(keystorev4.WithCost(t, 10)))
+}
+
+// newPopulationOn builds wallets and accounts in the given store.
+func newPopulationOn(t *testing.T, tag string, specs []WalletSpec, store e2wtypes.Store, enc e2wtypes.Encryptor) *Population {
 	InitBLS()
 	ctx := context.Background()
-	p := &Population{Store: &lockedStore{inner: scratch.New()}, Encryptor: keystorev4.New(keystorev4.WithCost(t, 10)), byKey: map[string]*AcctInfo{}, byPath: map[string]*AcctInfo{}}
+	p := &Population{Store: store, Encryptor: enc, byKey: map[string]*AcctInfo{}, byPath: map[string]*AcctInfo{}}
 	n := 0
 	for _, spec := range specs {
 		switch spec.Kind {
